@@ -23,6 +23,9 @@ def frame_menu(rng_bytes=b"0123456789abcdef"):
     return {
         "PADDING": qf.padding(3)[0], "PING": qf.ping()[0], "ACK": qf.ack(largest=3, delay=2, first=1)[0],
         "ACK_ECN": qf.ack(largest=3, delay=2, first=1, ecn=(1, 0, 2))[0], "ACK_RANGES": qf.ack(largest=9, ranges=((1, 2),), first=1)[0],
+        # counts and delays that need 2-, 4- and 8-byte varints next to 1-byte ones
+        "ACK_ECN_WIDE": qf.ack(largest=300, delay=20000, first=1, ecn=(70, 1 << 30, 2))[0],
+        "ACK_RANGES_WIDE": qf.ack(largest=70000, delay=2, ranges=((1, 200), (300, 1)), first=100)[0],
         "CRYPTO": qf.crypto(0, b"\x04\x00\x00\x04abcd")[0],
         "NEW_TOKEN": qf.new_token(b"tok-tok-tok")[0], "NEW_CONNECTION_ID": qf.new_connection_id(5, b"NEWCID!!", token=rng_bytes)[0],
         "MAX_DATA": qf.max_data(5000)[0], "MAX_STREAM_DATA": qf.max_stream_data(4, 70000)[0], "MAX_STREAMS": qf.max_streams(40)[0],
@@ -32,7 +35,7 @@ def frame_menu(rng_bytes=b"0123456789abcdef"):
     }
 
 
-FRAMES_K = ["PADDING", "PING", "ACK", "ACK_ECN", "ACK_RANGES", "CRYPTO", "NEW_TOKEN", "NEW_CONNECTION_ID", "MAX_DATA",
+FRAMES_K = ["PADDING", "PING", "ACK", "ACK_ECN", "ACK_RANGES", "ACK_ECN_WIDE", "ACK_RANGES_WIDE", "CRYPTO", "NEW_TOKEN", "NEW_CONNECTION_ID", "MAX_DATA",
             "MAX_STREAM_DATA", "MAX_STREAMS", "DATAGRAM", "HANDSHAKE_DONE"]
 FRAMES_F = FRAMES_K + ["RESET_STREAM", "STOP_SENDING", "PATH_CHALLENGE", "RETIRE_CONNECTION_ID", "DATA_BLOCKED"]
 
